@@ -361,6 +361,8 @@ def run(chk: Check, eng: Engine) -> None:
     chk.rule("R08-h", "code compiled from text (exec / eval / compile of a non-constant) does not inherit compiler flags from the calling module: "
              "no `from __future__ import annotations` (or barry_as_FLUFL) in a module with such a call unless it compiles with dont_inherit=True", floor=10)
     inherited_flags_rule(chk, eng, "R08-h")
+    chk.rule("R08-k", "spec text is evaluated in one namespace: the variables standing for <symbol> references are visible in the nested scopes of the text", floor=4)
+    single_namespace_rule(chk, eng, "R08-k")
     chk.rule("R08-i", "between string delimiters (lexer tokens that switch the lexer's f-string state) literal text is read from the input stream, never re-assembled "
              "from token texts: the token stream has no blanks", floor=2)
     string_text_rule(chk, eng, "R08-i", pg, lg)
@@ -526,6 +528,41 @@ def optional_token_rule(chk: Check, eng: Engine, rule: str, pg: g4.Grammar, lg: 
                             "the token is dropped from the translated code: the program is executed as if it had not been written", keyparts=f"opttoken|{r}|{tok}")
     if n < 3:
         raise AnalysisError(f"only {n} optional keyword / operator tokens found in handled rules of embedded Python")
+
+
+def single_namespace_rule(chk: Check, eng: Engine, rule: str) -> None:
+    """R08-k / R07-m.  `eval(text, g, l)` with two mappings runs the text like a class body: names of `l` are invisible inside the nested
+    scopes of the text (generator expressions, lambdas, nested comprehensions' inner parts).  Fandango binds the fresh variables that stand for
+    `<symbol>` references per evaluation; they must therefore be part of the *globals* mapping the text is evaluated in - i.e. spec text is
+    evaluated with one namespace.  Fixed templates without a nested scope are exempt."""
+    n = 0
+    for mod in eng.ix.modules.values():
+        if mod.tree is None or not mod.name.startswith("fandango.") or mod.name.startswith(("fandango.converters", "fandango.cli")):
+            continue  # converters evaluate their own arithmetic; the cli's `!` command runs what the user types at the prompt, not spec text
+        shadow = {nm for nm in ("exec", "eval") if nm in mod.functions or nm in mod.globals_assigned or nm in mod.imports}
+        for node in ast.walk(mod.tree):
+            if not (isinstance(node, ast.Call) and isinstance(node.func, ast.Name) and node.func.id in ("exec", "eval") and node.func.id not in shadow and node.args):
+                continue
+            src = node.args[0]
+            if isinstance(src, (ast.Constant, ast.JoinedStr)):
+                text = src.value if isinstance(src, ast.Constant) else "".join(v.value if isinstance(v, ast.Constant) and isinstance(v.value, str) else "_hole_" for v in src.values)
+                try:
+                    nested = any(isinstance(x, (ast.Lambda, ast.GeneratorExp, ast.ListComp, ast.SetComp, ast.DictComp, ast.FunctionDef, ast.ClassDef)) for x in ast.walk(ast.parse(text)))
+                except (SyntaxError, TypeError):
+                    nested = True
+                if not nested:
+                    continue
+            n += 1
+            g = node.args[1] if len(node.args) > 1 else next((k.value for k in node.keywords if k.arg == "globals"), None)
+            l = node.args[2] if len(node.args) > 2 else next((k.value for k in node.keywords if k.arg == "locals"), None)
+            if l is None or (g is not None and norm(g) == norm(l)):
+                chk.ok(rule, mod.name, node.lineno, f"`{short(node, 70)}`: one namespace")
+            else:
+                chk.bad(rule, mod.relpath, node.lineno, mod.name, f"`{short(node, 80)}` evaluates spec text with separate globals and locals",
+                        "the variables that stand for `<symbol>` references live in the locals mapping, which generator expressions and lambdas of the text cannot see: "
+                        "`where all(int(str(<s>)[i]) > 5 for i in range(2))` raises NameError and counts as failed for every tree", keyparts=f"two-namespaces|{norm(l)}")
+    if n < 4:
+        raise AnalysisError(f"only {n} eval/exec sites of spec text found")
 
 
 def inherited_flags_rule(chk: Check, eng: Engine, rule: str) -> None:
@@ -957,6 +994,8 @@ from ..mutants import M  # noqa: E402
 _CV = "src/fandango/language/parse/convert.py"
 _G4 = "language/FandangoParser.g4"
 MUTANTS = [
+    M("placeholders-as-eval-locals", "src/fandango/constraints/constraint.py", "        return eval(expression, {**global_variables, **local_variables})\n", "        return eval(expression, global_variables, local_variables)\n", "R08-k"),
+    M("generator-parameters-as-eval-locals", "src/fandango/language/grammar/grammar.py", "            generator.call, {**self._global_variables, **local_variables}\n", "            generator.call, self._global_variables, local_variables\n", "R08-k"),
     M("fstring-text-from-token-texts", _CV, "            text = stream.getText(begin, end)\n", "            text = \"\".join(t.getText() for t in tokens_between(begin, end))\n            trees.append(ast.Constant(value=text.getText()))\n", "R08-i"),
     M("fstring-never-reads-the-stream", _CV, "            text = stream.getText(begin, end)\n", "            text = suffix\n", "R08-i",
       more=(("                    ast.Constant(value=stream.getText(field.start.start + 1, end - 1))\n", "                    ast.Constant(value=str(end))\n"),)),
@@ -984,6 +1023,7 @@ MUTANTS = [
       "            arg, d, s, m = self.visitParam_with_default(param)\n            args.append(arg)\n            if d is not None and ctx.star_etc():\n                defaults.append(d)\n", "R08-c"),
 ]
 TWINS = [
+    M("twin-merged-namespace-in-a-local", "src/fandango/constraints/constraint.py", "        return eval(expression, {**global_variables, **local_variables})\n", "        namespace = dict(global_variables)\n        namespace.update(local_variables)\n        return eval(expression, namespace)\n", None),
     M("twin-fstring-stream-in-a-local", _CV, "            text = stream.getText(begin, end)\n", "            source = stream\n            text = source.getText(begin, end)\n", None),
     M("twin-async-flag-as-bool", _CV, "        is_async = True if ctx.ASYNC() else False  # needed for None check\n", "        is_async = bool(ctx.ASYNC())\n", None),
     M("twin-future-annotations-where-only-expressions-are-evaluated", "src/fandango/constraints/constraint.py", "from abc import ABC, abstractmethod\n", "from __future__ import annotations\nfrom abc import ABC, abstractmethod\n", None),
